@@ -9,7 +9,7 @@
 -/
 import Gts.Gen.CliSplit
 import Gts.Bridge.CliLoops
-import Gts.Lemmas.GoListSort
+import Gts.Lemmas.CliListSort
 namespace Gts.Bridge
 open Gts
 set_option linter.unusedSimpArgs false  -- the guard forms: only the ones the source uses are needed
@@ -20,21 +20,21 @@ set_option linter.unusedSimpArgs false  -- the guard forms: only the ones the so
 theorem splitStepLoop_shape (mo : List Int → List Int) (locate : Seq → List Reg) (circular : Bool)
     (r : Reg) (rest : List Reg) (unique : List Int) :
     Gen.splitStepLoop mo locate circular (r :: rest) unique =
-      Gen.splitStepLoop mo locate circular rest (Gen.goSetAdd unique (Cli.cutOf r)) := by
+      Gen.splitStepLoop mo locate circular rest (Gen.clSetAdd unique (Cli.cutOf r)) := by
   simp only [Gen.splitStepLoop, Cli.cutOf]
   by_cases h : r.tail < r.head <;> simp only [h, if_true, if_false]
 
 /-- the set `unique` after the loop: the cuts of the regions, first occurrences in order -/
 theorem splitStepLoop_eq (mo : List Int → List Int) (locate : Seq → List Reg) (circular : Bool) (rr : List Reg) :
-    Gen.splitStepLoop mo locate circular rr [] = some ((rr.map Cli.cutOf).foldl Gen.goSetAdd []) := by
-  rw [foldLoop_spec (Gen.splitStepLoop mo locate circular) (fun u r => Gen.goSetAdd u (Cli.cutOf r))
+    Gen.splitStepLoop mo locate circular rr [] = some ((rr.map Cli.cutOf).foldl Gen.clSetAdd []) := by
+  rw [foldLoop_spec (Gen.splitStepLoop mo locate circular) (fun u r => Gen.clSetAdd u (Cli.cutOf r))
     (fun _ => rfl) (splitStepLoop_shape mo locate circular), List.foldl_map]
 
 theorem splitStepLoop2_shape (mo : List Int → List Int) (locate : Seq → List Reg) (circular : Bool)
     (head : Int) (rest heads : List Int) (i : Int) :
     Gen.splitStepLoop2 mo locate circular (head :: rest) heads i =
-      (Gen.goPut heads i (id head)).bind fun ys => Gen.splitStepLoop2 mo locate circular rest ys (i + 1) := by
-  cases h : Gen.goPut heads i head <;> simp [Gen.splitStepLoop2, h]
+      (Gen.clPut heads i (id head)).bind fun ys => Gen.splitStepLoop2 mo locate circular rest ys (i + 1) := by
+  cases h : Gen.clPut heads i head <;> simp [Gen.splitStepLoop2, h]
 
 /-- `heads := make([]int, len(unique)); i := 0; for head := range unique { heads[i] = head; i++ }`: the keys
 in the order the map yields them, no store out of range -/
@@ -50,8 +50,8 @@ theorem splitStepLoop2_eq (mo : List Int → List Int) (locate : Seq → List Re
 theorem splitStepLoop3_shape (mo : List Int → List Int) (locate : Seq → List Reg) (circular : Bool)
     (head : Int) (rest : List Int) (i : Int) (splits : List Int) :
     Gen.splitStepLoop3 mo locate circular (head :: rest) i splits =
-      (Gen.goPut splits (i + 1) (id head)).bind fun ys => Gen.splitStepLoop3 mo locate circular rest (i + 1) ys := by
-  cases h : Gen.goPut splits (i + 1) head <;> simp [Gen.splitStepLoop3, h]
+      (Gen.clPut splits (i + 1) (id head)).bind fun ys => Gen.splitStepLoop3 mo locate circular rest (i + 1) ys := by
+  cases h : Gen.clPut splits (i + 1) head <;> simp [Gen.splitStepLoop3, h]
 
 /-- `for i, head := range heads { splits[i+1] = head }` on `splits = [a] ++ (len(heads) cells) ++ tl` -/
 theorem splitStepLoop3_eq (mo : List Int → List Int) (locate : Seq → List Reg) (circular : Bool)
@@ -63,43 +63,43 @@ theorem splitStepLoop3_eq (mo : List Int → List Int) (locate : Seq → List Re
 
 /-- linear record: `splits := make([]int, len(heads)+2); splits[len(splits)-1] = gts.Len(seq)` -/
 theorem splits_linear (heads : List Int) (L : Int) :
-    Gen.goMake Int ((heads.length : Int) + 2) = some (List.replicate (heads.length + 2) 0) ∧
-    Gen.goPut (List.replicate (heads.length + 2) (0 : Int)) (((List.replicate (heads.length + 2) (0 : Int)).length : Int) - 1) L =
+    Gen.clMake Int ((heads.length : Int) + 2) = some (List.replicate (heads.length + 2) 0) ∧
+    Gen.clPut (List.replicate (heads.length + 2) (0 : Int)) (((List.replicate (heads.length + 2) (0 : Int)).length : Int) - 1) L =
       some (0 :: (List.replicate heads.length 0 ++ [L])) := by
   constructor
   · have e : (heads.length : Int) + 2 = ((heads.length + 2 : Nat) : Int) := by omega
-    rw [e, goMake_nat]; rfl
+    rw [e, clMake_nat]; rfl
   · have e : (((List.replicate (heads.length + 2) (0 : Int)).length : Int) - 1)
         = (((0 : Int) :: List.replicate heads.length 0).length : Int) := by
       simp only [List.length_replicate, List.length_cons]; omega
     have e2 : List.replicate (heads.length + 2) (0 : Int) = (0 :: List.replicate heads.length 0) ++ 0 :: [] := by
       rw [List.replicate_succ', List.replicate_succ]
-    rw [e, e2, goPut_append_length]; rfl
+    rw [e, e2, clPut_append_length]; rfl
 
 /-- circular record: `splits[0] = heads[len(heads)-1]; splits = splits[:len(splits)-1]` -/
 theorem splits_circular (heads : List Int) (a : Int) (l : List Int) (hh : heads = a :: l) :
-    Gen.goAt heads ((heads.length : Int) - 1) = some (Cli.lastFrom a l) ∧
-    (∀ v : Int, Gen.goPut (List.replicate (heads.length + 2) (0 : Int)) 0 v =
+    Gen.clAt heads ((heads.length : Int) - 1) = some (Cli.lastFrom a l) ∧
+    (∀ v : Int, Gen.clPut (List.replicate (heads.length + 2) (0 : Int)) 0 v =
       some (v :: List.replicate (heads.length + 1) 0)) ∧
-    (∀ v : Int, Gen.goTo (v :: List.replicate (heads.length + 1) (0 : Int))
+    (∀ v : Int, Gen.clTo (v :: List.replicate (heads.length + 1) (0 : Int))
         (((v :: List.replicate (heads.length + 1) (0 : Int)).length : Int) - 1) =
       some (v :: List.replicate heads.length 0)) := by
   refine ⟨?_, ?_, ?_⟩
   · subst hh
     have e : (((a :: l).length : Int) - 1) = ((l.length : Nat) : Int) := by
       simp only [List.length_cons]; omega
-    rw [e, goAt_nat]
+    rw [e, clAt_nat]
     have := Cli.getLast?_lastFrom a l
     rw [List.getLast?_eq_getElem?] at this
     simpa using this
   · intro v
-    have := goPut_append_length ([] : List Int) 0 v (List.replicate (heads.length + 1) 0)
+    have := clPut_append_length ([] : List Int) 0 v (List.replicate (heads.length + 1) 0)
     simpa [List.replicate_succ] using this
   · intro v
     have e : (((v :: List.replicate (heads.length + 1) (0 : Int)).length : Int) - 1)
         = ((heads.length + 1 : Nat) : Int) := by
       simp only [List.length_cons, List.length_replicate]; omega
-    rw [e, goTo_nat _ _ (by simp)]
+    rw [e, clTo_nat _ _ (by simp)]
     simp [List.take_replicate]
 
 /-! ### the pieces -/
@@ -116,7 +116,7 @@ theorem splitStepLoop4_spec (mo : List Int → List Int) (locate : Seq → List 
   | nil => intro pre a written; simp [Gen.splitStepLoop4, Cli.pieces]
   | cons b rest ih =>
     intro pre a written
-    simp only [Gen.splitStepLoop4, goAt_append_length]
+    simp only [Gen.splitStepLoop4, clAt_append_length]
     have := ih (pre ++ [a]) b (written ++ [seq.slice a b])
     simp only [List.append_assoc, List.singleton_append, List.length_append, List.length_cons,
       List.length_nil, Nat.zero_add] at this
@@ -127,10 +127,10 @@ theorem splitStepLoop4_spec (mo : List Int → List Int) (locate : Seq → List 
 /-- the last loop of the step on `splits = a :: tl` -/
 theorem splitStep_pieces (mo : List Int → List Int) (locate : Seq → List Reg) (circular : Bool) (seq : Seq)
     (a : Int) (tl : List Int) (written : List Seq) :
-    Gen.goFrom (a :: tl) 1 = some tl ∧
+    Gen.clFrom (a :: tl) 1 = some tl ∧
     Gen.splitStepLoop4 mo locate circular seq (a :: tl) tl 0 written = some (written ++ Cli.pieces seq (a :: tl)) := by
   constructor
-  · have := goFrom_nat (a :: tl) 1 (by simp)
+  · have := clFrom_nat (a :: tl) 1 (by simp)
     simpa using this
   · exact splitStepLoop4_spec mo locate circular seq tl [] a written
 
@@ -161,11 +161,11 @@ theorem splitStep_eq (mo : List Int → List Int) (hmo : ∀ l, (mo l).Perm l) (
       simp only [Reg.head, Reg.headList]
     · rw [if_neg h1, if_neg h1]
       -- the cut positions
-      generalize hkeys : ((r0 :: rest).map Cli.cutOf).foldl Gen.goSetAdd [] = keys
+      generalize hkeys : ((r0 :: rest).map Cli.cutOf).foldl Gen.clSetAdd [] = keys
       have hlenk : (mo keys).length = keys.length := (hmo keys).length_eq
-      have hsort : Gen.sortInts (mo keys) = Cli.sortAscU ((r0 :: rest).map Cli.cutOf) :=
-        sortInts_keys _ _ (hkeys ▸ hmo keys)
-      simp only [splitStepLoop_eq, hkeys, goMake_nat, splitStepLoop2_eq mo locate circular (mo keys) keys.length hlenk, hsort]
+      have hsort : Gen.clSortInts (mo keys) = Cli.sortAscU ((r0 :: rest).map Cli.cutOf) :=
+        clSortInts_keys _ _ (hkeys ▸ hmo keys)
+      simp only [splitStepLoop_eq, hkeys, clMake_nat, splitStepLoop2_eq mo locate circular (mo keys) keys.length hlenk, hsort]
       generalize hheads : Cli.sortAscU ((r0 :: rest).map Cli.cutOf) = heads
       obtain ⟨a, l, hh⟩ : ∃ a l, heads = a :: l := by
         have : Cli.cutOf r0 ∈ heads := by
@@ -181,7 +181,7 @@ theorem splitStep_eq (mo : List Int → List Int) (hmo : ∀ l, (mo l).Perm l) (
       by_cases h2 : heads.length = 1 ∧ circular = true
       · rw [if_pos h2, if_pos h2]
         subst hh
-        simp only [goAt_zero_cons, List.headD_cons]
+        simp only [clAt_zero_cons, List.headD_cons]
       · rw [if_neg h2, if_neg h2]
         cases circular with
         | true =>
@@ -208,7 +208,7 @@ example : Gen.splitStep List.reverse (fun _ => [.seg 3 1, .seg 2 4, .seg 1 2]) t
 every written record is marked linear (`gts.WithTopology(·, gts.Linear)`; the model's sequences
 carry no topology) -/
 theorem splitStepFacts_eq : Gen.splitStepFacts =
-    ["topology", "write", "withTopology Linear", "write", "sortInts", "withTopology Linear", "write",
+    ["topology", "write", "withTopology Linear", "write", "clSortInts", "withTopology Linear", "write",
      "withTopology Linear", "write", "flush"] := rfl
 
 end Gts.Bridge
